@@ -21,6 +21,33 @@ pub fn writers(k: &[u8], o: &[u8]) -> Vec<Vec<Vec<u8>>> {
         // reads must not abort
         c(&[b"GET", k]), c(&[b"STRLEN", k]), c(&[b"EXISTS", k]), c(&[b"TTL", k]), c(&[b"TYPE", k]), c(&[b"GETRANGE", k, b"0", b"-1"]), c(&[b"MGET", k, o]),
         c(&[b"KEYS", b"*"]), c(&[b"INCR", k, b"extra"]), c(&[b"SET", k]),
+        // ---- list / set / hash families (C03): every write command ...
+        c(&[b"LPUSH", k, b"x"]), c(&[b"RPUSH", k, b"x", b"y"]), c(&[b"LPOP", k]), c(&[b"RPOP", k]),
+        c(&[b"LSET", k, b"0", b"z"]), c(&[b"LSET", k, b"5", b"z"]), c(&[b"LSET", k, b"-1", b"a"]),
+        c(&[b"LTRIM", k, b"0", b"0"]), c(&[b"LTRIM", k, b"0", b"-1"]), c(&[b"LTRIM", k, b"5", b"1"]), c(&[b"LTRIM", k, b"0", b"-100"]),
+        c(&[b"LREM", k, b"0", b"a"]), c(&[b"LREM", k, b"1", b"zz"]), c(&[b"LREM", k, b"-9223372036854775808", b"a"]),
+        c(&[b"SADD", k, b"a"]), c(&[b"SADD", k, b"new"]), c(&[b"SREM", k, b"a"]), c(&[b"SREM", k, b"zz"]), c(&[b"SREM", k, b"a", b"b"]),
+        c(&[b"SPOP", k]), c(&[b"SPOP", k, b"0"]), c(&[b"SPOP", k, b"5"]),
+        c(&[b"HSET", k, b"f", b"1"]), c(&[b"HSET", k, b"new", b"v"]), c(&[b"HSET", k, b"f", b"1", b"f", b"2"]), c(&[b"HMSET", k, b"f", b"2"]),
+        c(&[b"HDEL", k, b"f"]), c(&[b"HDEL", k, b"zz"]), c(&[b"HDEL", k, b"f", b"g"]),
+        c(&[b"HINCRBY", k, b"f", b"1"]), c(&[b"HINCRBY", k, b"g", b"1"]), c(&[b"HINCRBY", k, b"f", b"9223372036854775807"]),
+        // ... and the reads and refused forms, which must not abort
+        c(&[b"LLEN", k]), c(&[b"LRANGE", k, b"0", b"-1"]), c(&[b"LINDEX", k, b"0"]),
+        c(&[b"SMEMBERS", k]), c(&[b"SISMEMBER", k, b"a"]), c(&[b"SCARD", k]), c(&[b"SUNION", k, o]), c(&[b"SINTER", k, o]), c(&[b"SDIFF", k, o]),
+        c(&[b"SRANDMEMBER", k]), c(&[b"SRANDMEMBER", k, b"-2"]), c(&[b"SRANDMEMBER", k, b"-9223372036854775808"]),
+        c(&[b"HGET", k, b"f"]), c(&[b"HMGET", k, b"f", b"g"]), c(&[b"HGETALL", k]), c(&[b"HLEN", k]), c(&[b"HEXISTS", k, b"f"]), c(&[b"HKEYS", k]), c(&[b"HVALS", k]),
+        c(&[b"LPUSH", k]), c(&[b"LSET", k, b"x", b"z"]), c(&[b"HINCRBY", k, b"f", b"x"]), c(&[b"SPOP", k, b"-1"]),
+    ]
+}
+/// initial states of the watched key: missing, strings, and every collection type of C03
+/// (one- and several-element collections: a single pop / removal empties the former)
+pub fn inits(k: &[u8]) -> Vec<Vec<Vec<Vec<u8>>>> {
+    let c = |a: &[&[u8]]| -> Vec<Vec<u8>> { a.iter().map(|x| x.to_vec()).collect() };
+    vec![
+        vec![], vec![c(&[b"SET", k, b"10"])], vec![c(&[b"SET", k, b"text"])], vec![c(&[b"SET", k, b""])],
+        vec![c(&[b"RPUSH", k, b"a", b"b", b"a"])], vec![c(&[b"RPUSH", k, b"a"])],
+        vec![c(&[b"SADD", k, b"a", b"b", b"c"])], vec![c(&[b"SADD", k, b"a"])],
+        vec![c(&[b"HSET", k, b"f", b"1", b"g", b"x"])], vec![c(&[b"HSET", k, b"f", b"1"])],
     ]
 }
 
@@ -29,8 +56,8 @@ pub fn gen(seed: u64, n: usize, _tier: &str) -> Vec<Case> {
     let mut cases = vec![];
     let mut id = 0;
     // exhaustive catalogue: writer x initial value of the watched key x who writes x on which key
-    let inits: Vec<Option<&[u8]>> = vec![None, Some(b"10"), Some(b"text"), Some(b"")];
     let k: &[u8] = b"wk"; let o: &[u8] = b"other";
+    let inits = inits(k);
     let wl = writers(k, o);
     let wl_other = writers(o, b"third");
     for (wi, w) in wl.iter().enumerate() {
@@ -39,9 +66,9 @@ pub fn gen(seed: u64, n: usize, _tier: &str) -> Vec<Case> {
             for who in 0..3 {
                 // who: 0 = another connection on the watched key, 1 = same connection, 2 = another connection on OTHER keys only
                 ops.push(cmd_op(2, &[b"FLUSHALL"]));
-                if let Some(v) = init { ops.push(cmd_op(2, &[b"SET", k, v])); }
+                for ic in init { push_cmd(&mut ops, 2, ic); }
                 ops.push(cmd_op(2, &[b"SET", o, b"7"]));
-                if ii == 1 { ops.push(cmd_op(2, &[b"EXPIRE", k, b"1000"])); }
+                if ii == 1 || ii == 4 || ii == 7 || ii == 8 { ops.push(cmd_op(2, &[b"EXPIRE", k, b"1000"])); }
                 ops.push(cmd_op(1, &[b"WATCH", k]));
                 match who {
                     0 => push_cmd(&mut ops, 2, w),
@@ -71,7 +98,14 @@ pub fn gen(seed: u64, n: usize, _tier: &str) -> Vec<Case> {
                 6 | 7 => ops.push(cmd_op(c, &[b"EXEC"])),
                 8 => ops.push(cmd_op(c, &[b"DISCARD"])),
                 9 => ops.push(cmd_op(c, &[b"SELECT", *r.pick(&[&b"0"[..], b"1"])])),
-                _ => { let kk = *r.pick(keys); let oo = *r.pick(keys); let w = writers(kk, oo); let v = r.pick(&w).clone(); push_cmd(&mut ops, c, &v); }
+                _ => {
+                    let kk = *r.pick(keys); let oo = *r.pick(keys); let w = writers(kk, oo);
+                    // SPOP / SRANDMEMBER may end up queued in a MULTI, where the runner has no oracle for the
+                    // model: they are covered by the catalogue above (outside MULTI) only
+                    let mut v = r.pick(&w).clone();
+                    while v[0] == b"SPOP" || v[0] == b"SRANDMEMBER" { v = r.pick(&w).clone(); }
+                    push_cmd(&mut ops, c, &v);
+                }
             }
         }
         ops.push(conn_op(9));
